@@ -249,6 +249,12 @@ def step (ctx : Ctx) (lhs : String) (implObs : String := "") : Ctx × String :=
       let ids := match rest with | [l] => (l.splitOn ",").filterMap uuidOf | _ => []
       (ctx, dumpClient ctx.st c ids)
   | ["rawdump"] => (ctx, rawDump ctx.st)
+  | ["set_snapshot", c, vid, ts, since, d] =>
+    match uuidOf c, uuidOf vid, ts.toInt?, since.toNat?, parseBlob d with
+    | some c, some vid, some ts, some since, some d =>
+      let (ok, st') := runReq ctx.st (.txn c (do call (.setSnapshot ⟨vid, ts, since⟩ d); call .commit) fun r => .done r.isSome)
+      ({ ctx with st := st' }, if ok then "ok" else "err")
+    | _, _, _, _, _ => (ctx, "bad-op")
   | "http" :: _ =>
     match parseHttp ws with
     | none => (ctx, "bad-op")
